@@ -11,7 +11,8 @@ from . import seeds
 
 VERIF = C.VERIF
 REPLAYS = os.path.join(VERIF, "replays")
-EVIDENCE = os.path.join(VERIF, "evidence")
+# VERIF_EVIDENCE_DIR: where evidence goes when the tree under test is not /repo as committed (seeded-change experiments)
+EVIDENCE = os.environ.get("VERIF_EVIDENCE_DIR") or os.path.join(VERIF, "evidence")
 KNOWN = os.path.join(VERIF, "known_findings.json")
 
 
